@@ -182,6 +182,9 @@ def check(case):
             ok3 = (-imb3 <= 0.015 * app3) if env == 'real' else (abs(imb3) <= 0.015 * app3)
             if ok3:
                 cls = ':insulated-thick-wire:self-term-uses-bare-radius'
+            elif stress and abs(imb3) <= 0.06 * app3:
+                # what remains after removing F-C08c is within the stress-class finding F-C01
+                cls = ':remaining-within-6-percent:' + '+'.join(sorted(set(stress))) + ':insulated-thick-wire:self-term-uses-bare-radius'
         except Exception:
             pass
     if not cls and stress and abs(imb) <= 0.06 * app:
